@@ -18,6 +18,7 @@ import (
 	"path/filepath"
 	"reflect"
 	"regexp"
+	"strconv"
 	"strings"
 	"sync"
 	"time"
@@ -662,6 +663,29 @@ func variationCase(c *core.Ctx, r *core.Rand, i int) {
 	}
 	doc := xtree.WriteXML(t)
 	if kind == "attribute-order" {
+		// usage masks carried as attribute values are written as the list of their flag names
+		doc = usageMaskAttrRe.ReplaceAllFunc(doc, func(m []byte) []byte {
+			sm := usageMaskAttrRe.FindSubmatch(m)
+			v, err := strconv.ParseInt(string(sm[2]), 10, 64)
+			if err != nil || v <= 0 {
+				return m
+			}
+			flags := xtree.MaskFlags(kmip.TagCryptographicUsageMask)
+			var names []string
+			for bit := 0; bit < 32; bit++ {
+				if v&(1<<bit) == 0 {
+					continue
+				}
+				if bit >= len(flags) || flags[bit] == "" {
+					return m
+				}
+				names = append(names, flags[bit])
+			}
+			if len(names) < 2 {
+				return m
+			}
+			return []byte(string(sm[1]) + `<AttributeValue type="Integer" value="` + strings.Join(names, " ") + `"/>`)
+		})
 		doc = attrOrderRe.ReplaceAllFunc(doc, func(m []byte) []byte {
 			sm := attrOrderRe.FindSubmatch(m)
 			if string(sm[3]) == "DateTime" {
@@ -672,13 +696,53 @@ func variationCase(c *core.Ctx, r *core.Rand, i int) {
 					c.Count("variations.date-with-offset", 1)
 				}
 			}
+			if string(sm[3]) == "Boolean" && r.P(1, 2) {
+				// xsd:boolean has the lexical forms true/false and 1/0
+				switch string(sm[4]) {
+				case "true":
+					sm[4] = []byte("1")
+				case "false":
+					sm[4] = []byte("0")
+				}
+				c.Count("variations.boolean-numeric", 1)
+			}
+			if string(sm[3]) == "Integer" && (string(sm[1]) == "CryptographicUsageMask" || string(sm[1]) == "StorageStatusMask") {
+				// a mask written as the list of its flag names, as the profile prefers
+				tag := kmip.TagCryptographicUsageMask
+				if string(sm[1]) == "StorageStatusMask" {
+					tag = kmip.TagStorageStatusMask
+				}
+				if v, err := strconv.ParseInt(string(sm[4]), 0, 64); err == nil && v > 0 {
+					flags := xtree.MaskFlags(tag)
+					names, named := []string{}, true
+					for bit := 0; bit < 32; bit++ {
+						if v&(1<<bit) == 0 {
+							continue
+						}
+						if bit >= len(flags) || flags[bit] == "" {
+							named = false
+							break
+						}
+						names = append(names, flags[bit])
+					}
+					if named && len(names) > 1 {
+						sm[4] = []byte(strings.Join(names, " "))
+					}
+				}
+			}
+			if string(sm[3]) == "Integer" && bytes.Contains(sm[4], []byte(" ")) {
+				// a list of mask items: any white space separates them (a tab, a line feed, several blanks)
+				sep := [][]byte{[]byte("&#9;"), []byte("&#10;"), []byte("   "), []byte(" &#13;&#10; ")}[r.Intn(4)]
+				sm[4] = bytes.ReplaceAll(sm[4], []byte(" "), sep)
+				c.Count("variations.mask-list-whitespace", 1)
+			}
 			switch r.Intn(3) {
 			case 0:
 				return []byte(fmt.Sprintf(`<%s value="%s" type="%s"%s/>`, sm[1], sm[4], sm[3], sm[2]))
 			case 1:
 				return []byte(fmt.Sprintf("<%s\n   value = \"%s\"%s type='%s' />", sm[1], sm[4], sm[2], sm[3]))
 			}
-			return m
+			return []byte(fmt.Sprintf(`<%s%s type="%s" value="%s"/>`, sm[1], sm[2], sm[3], sm[4]))
 		})
 	}
 	c.Count("variations."+kind, 1)
@@ -893,6 +957,8 @@ func localZoneCase(c *core.Ctx, r *core.Rand, i int) {
 	c.Distinct(core.Hash64("local-zone", fmt.Sprint(i)))
 }
 
+var usageMaskAttrRe = regexp.MustCompile(`(<AttributeName type="TextString" value="Cryptographic Usage Mask"/>\s*(?:<AttributeIndex [^>]*/>\s*)?)<AttributeValue type="Integer" value="(\d+)"/>`)
+
 var attrOrderRe = regexp.MustCompile(`<([A-Za-z_0-9]+)((?: tag="[^"]*")?) type="([A-Za-z]+)" value="([^"']*)"/>`)
 
 func nOf(q, t int) func(string) int {
@@ -916,7 +982,7 @@ func Spec() *core.Spec {
 			"value variations and corpus-derived optional-element removals. plus six fresh processes whose local time zone is not UTC (dates in the first and last hours of years 1..9999), vectors with XML attributes in another order, 8 goroutines producing documents with unnamed enumeration values at once, and (fresh process) standard names read after vendor values were registered for four enumerations. distinct = distinct layout shapes / documents",
 		Assumptions: []string{"TZ=UTC", "harness/xtree is an independent reading of KMIP 1.4 Profiles §5.4/§5.5 by the same author", "placeholders ($NOW, $UNIQUE_IDENTIFIER_n, …) are substituted before both sides see the vector",
 			"an element is optional in a context if the corpus contains an instance of that context without it; rejections of such removals are counted, not judged"},
-		Required: []string{"docs.xml", "docs.json", "py_judged.xml", "py_judged.json", "vectors_supported", "variations.value", "variations.optional-element", "variations.attribute-order", "variations.date-with-offset", "docs_from_reused_encoders", "concurrent_documents", "vendor_registration_docs", "local_zone_dates", "ladder.enum-named", "ladder.mask-bit31", "ladder.text-json-control", "ladder.long-near-2^52"},
+		Required: []string{"docs.xml", "docs.json", "py_judged.xml", "py_judged.json", "vectors_supported", "variations.value", "variations.optional-element", "variations.attribute-order", "variations.date-with-offset", "variations.boolean-numeric", "variations.mask-list-whitespace", "docs_from_reused_encoders", "concurrent_documents", "vendor_registration_docs", "local_zone_dates", "ladder.enum-named", "ladder.mask-bit31", "ladder.text-json-control", "ladder.long-near-2^52"},
 		// a data race inside the codec while documents are being produced means one document may carry another one's
 		// content: a violation when both stacks end in package ttlv (other reports print as diagnostics)
 		RaceVerdict: func(r core.RaceReport) (string, bool) {
